@@ -925,6 +925,9 @@ class CodeGenerator:
         ) and isinstance(to_type, (ast.IntegerType, ast.FloatType)):
             # Any numeric cast
             return self.emit(ir.Cast(ar, "cast", self.get_ir_type(to_type)))
+        elif self.context.equal_types(from_type, to_type):
+            # Nothing to convert
+            return ar
         else:  # pragma: no cover
             raise NotImplementedError(f"Cannot cast {from_type} to {to_type}")
 
